@@ -304,6 +304,10 @@ pub fn record_run<T: Sc>(rs: &RunSpec<T>) -> RunOut {
             "certified": false, "noworse": true, "orth": true, "reproduces": true,
         });
         fields["coherent"] = json!(coherent(rs, &fo));
+        // the optimizer reports "residuals are literally zero" only when their norm is at most the
+        // smallest positive normal number: then no entry can be larger
+        let minpos = if T::NAME == "f64" { f64::MIN_POSITIVE } else { f32::MIN_POSITIVE as f64 };
+        fields["rzero"] = json!(fo.fin.residuals.as_ref().map(|r| r.iter().all(|v| v.to64().abs() <= minpos)).unwrap_or(false));
         let name = if let Some(s) = sok {
             fields["sok"] = json!(s);
             fields["identity"] = json!(ident);
@@ -830,6 +834,14 @@ fn exp_run<T: Sc>(i: usize, near: bool, rng: &mut StdRng) -> RunSpec<T> {
     }
 }
 
+/// the same observations in a small unit (an exact power of two): the residual norm at any guess is
+/// far below machine epsilon in absolute terms, and nothing about the fit may depend on that
+fn small_unit<T: Sc>(rs: &mut RunSpec<T>) {
+    let f = T::of64(if T::NAME == "f64" { f64::from_bits((1023u64 - 60) << 52) } else { f64::from_bits((1023u64 - 30) << 52) });
+    rs.y = rs.y.map(|v| v * f);
+    rs.label = format!("{} small-unit", rs.label);
+}
+
 fn write_runs(path: &str, runs: &[RunOut]) -> usize {
     let mut f = std::io::BufWriter::new(std::fs::File::create(path).expect("create trace file"));
     let mut n = 0;
@@ -882,12 +894,18 @@ fn gen_and_record<T: Sc>(mode: &str, count: usize, rng: &mut StdRng) -> Vec<RunO
                     rs.y[(1, 0)] = T::of64(v);
                     rs.label = format!("{} non-finite observation", rs.label);
                 }
+                if i % 19 == 4 || i % 19 == 13 {
+                    small_unit(&mut rs);
+                }
                 outs.push(record_run(&rs));
             }
         }
         "c05" => {
             for i in 0..count {
-                let rs = exp_run::<T>(i, true, rng);
+                let mut rs = exp_run::<T>(i, true, rng);
+                if i % 7 == 3 {
+                    small_unit(&mut rs);
+                }
                 outs.push(record_run(&rs));
             }
         }
@@ -1170,6 +1188,29 @@ fn run_pairs_t<T: Sc>(count: usize, rng: &mut StdRng, rep: &mut Report) {
                 };
                 rep.check("C07", fa.ok == fb.ok && d <= 1.0 && dc <= 1.0, d.max(dc) * t6, || {
                     json!({"what": "fitted parameters / coefficients change under a permutation of the observation columns", "label": base.label, "dparams": d * t6, "dcoeff": dc * t6})
+                });
+            }
+        }
+        // ---- C07: a one-column problem built through the multiple right hand side builder is
+        // indistinguishable from the single right hand side problem - also in what a fit hands back,
+        // and also when the fit does not succeed (an early end by lost patience)
+        {
+            let mut a = base.clone();
+            a.y = DMatrix::from_fn(base.y.nrows(), 1, |r, _| base.y[(r, 0)]);
+            a.mrhs = false;
+            a.cfg = LmCfg { patience: [100usize, 1, 2][i % 3], ..LmCfg::default() };
+            let mut b = a.clone();
+            b.mrhs = true;
+            if let (Some(fa), Some(fb)) = (fit_facts(&a, false), fit_facts(&b, false)) {
+                let same_coeffs = match (&fa.coeffs, &fb.coeffs) {
+                    (Some(x), Some(y)) => x.shape() == y.shape() && bits_eq(x.as_slice(), y.as_slice()),
+                    (None, None) => true,
+                    _ => false,
+                };
+                let same = fa.ok == fb.ok && fa.term == fb.term && fa.nfev == fb.nfev && bits_eq(&fa.params, &fb.params) && same_coeffs;
+                rep.check("C07", same, 0.0, || {
+                    json!({"what": "fit of a one-column multiple right hand side problem differs from the fit of the single right hand side problem", "label": base.label,
+                           "patience": a.cfg.patience, "single": [fa.ok, fa.term, fa.nfev, fa.coeffs.is_some()], "mrhs": [fb.ok, fb.term, fb.nfev, fb.coeffs.is_some()]})
                 });
             }
         }
